@@ -112,7 +112,9 @@ class C23(EngineACheck):
         "repository A receives 1-3 simulated executions of generated programs (failures, "
         "duplicates, files nested in values are not used) and a generated history of tag "
         "add / update / delete operations on its executions and jobs; a subset of the executions "
-        "is pushed to an empty repository B, pushed again, then the rest is pushed; after each "
+        "is pushed to an empty repository B, pushed again, then the rest is pushed, with further "
+        "tag edits in A between two transfers in most cases (so that B already holds the tags the "
+        "next transfer supersedes or deletes); after each "
         "step the rows of B are compared with those of A (everything an independent walk finds "
         "reachable from the pushed executions must be present and equal, nothing may exist in B "
         "that A lacks, a repeated push must report 0 new records and change nothing, and after "
@@ -125,7 +127,8 @@ class C23(EngineACheck):
         "Evaluation, CallSubtreeTask, Handle rows, Execution.updated_time and redun_version are "
         "outside the compared dump: the statement does not list them and the serializers drop them",
     ]
-    EXPECTED_PROBES = ["partial_pushes", "repeated_pushes", "superseded_tags", "edited_runs_on_destination"]
+    EXPECTED_PROBES = ["partial_pushes", "repeated_pushes", "superseded_tags",
+                       "edited_runs_on_destination", "tag_edits_between_transfers"]
     QUICK_SECONDS = 35.0
 
     def run_one(self, ch: Choices) -> RunOutcome:
@@ -157,24 +160,29 @@ class C23(EngineACheck):
             exec_ids = [e["id"] for e in view.rows("execution")]
             job_ids = [j["id"] for j in view.rows("job")]
             view.close()
-            backend = schedsim.open_backend(db_a)
-            try:
-                ents = [(TagEntity.Execution, e) for e in exec_ids] + \
-                       [(TagEntity.Job, j) for j in job_ids[:3]]
-                for _ in range(ch.choice(6, "ntagops")):
-                    et, eid = ents[ch.choice(len(ents), "tag-entity")]
-                    key = ["ta", "tb"][ch.choice(2, "tag-key")]
-                    val = [1, "x", [1], None][ch.choice(4, "tag-val")]
-                    k = ch.choice(3, "tag-op")
-                    if k == 0:
-                        backend.record_tags(et, eid, [(key, val)], new=True)
-                    elif k == 1:
-                        backend.record_tags(et, eid, [(key, val)], update=True)
-                        out.probe("superseded_tags")
-                    else:
-                        backend.delete_tags(eid, [(key, val)], [])
-            finally:
-                schedsim.close_backend(backend)
+            ents = [(TagEntity.Execution, e) for e in exec_ids] + \
+                   [(TagEntity.Job, j) for j in job_ids[:3]]
+
+            def tag_ops(n: int) -> int:
+                backend = schedsim.open_backend(db_a)
+                try:
+                    for _ in range(n):
+                        et, eid = ents[ch.choice(len(ents), "tag-entity")]
+                        key = ["ta", "tb"][ch.choice(2, "tag-key")]
+                        val = [1, "x", [1], None][ch.choice(4, "tag-val")]
+                        k = ch.choice(3, "tag-op")
+                        if k == 0:
+                            backend.record_tags(et, eid, [(key, val)], new=True)
+                        elif k == 1:
+                            backend.record_tags(et, eid, [(key, val)], update=True)
+                            out.probe("superseded_tags")
+                        else:
+                            backend.delete_tags(eid, [(key, val)], [])
+                finally:
+                    schedsim.close_backend(backend)
+                return n
+
+            tag_ops(ch.choice(6, "ntagops"))
             out.nontrivial = len(exec_ids) >= 2 and bool(out.probes.get("superseded_tags"))
 
             # ---- transfers --------------------------------------------------------------
@@ -184,12 +192,25 @@ class C23(EngineACheck):
             if rest:
                 out.probe("partial_pushes")
                 steps += [("push-rest", exec_ids), ("push-all-again", exec_ids)]
+            # tag edits in the source *between* transfers: the destination already holds the
+            # tags that the next transfer supersedes or deletes
+            if ch.coin(0.6, "tag-edits-between-transfers"):
+                at = 1 + ch.choice(len(steps), "tag-edits-at")
+                steps.insert(at, ("tag-edits", None))
+                steps += [("push-all-after-tag-edits", exec_ids), ("push-all-again", exec_ids)]
             a = dump(db_a)
+            dirty = False
             for name, roots in steps:
+                if name == "tag-edits":
+                    if tag_ops(1 + ch.choice(4, "ntagops-between")):
+                        dirty = True
+                        out.probe("tag_edits_between_transfers")
+                        a = dump(db_a)
+                    continue
                 before = dump(db_b)
                 n = self.sync(db_a, db_b, roots)
                 b = dump(db_b)
-                if "again" in name:
+                if "again" in name and not dirty:
                     out.probe("repeated_pushes")
                     if n != 0:
                         out.violate("C23.repeat_adds_nothing", "reported-new-records",
@@ -197,6 +218,8 @@ class C23(EngineACheck):
                     if b != before:
                         t = next(t for t in b if b[t] != before[t])
                         out.violate("C23.repeat_adds_nothing", f"changed:{t}", {"step": name})
+                if roots == exec_ids:
+                    dirty = False  # everything was transferred: the next push is a pure repeat
                 # nothing in B that A lacks
                 for t in b:
                     extra = b[t] - a[t]
